@@ -319,7 +319,14 @@ func rulePoolReset(r *Run) {
 			}
 			r.check(good && nuse > 0, key, g.call.Pos(), "the pooled slice is only ever read as (*bp)[:0]", "the contents of a pooled byte slice are read without resetting its length to 0: bytes of an earlier request are visible")
 		case ts == "*bytes.Buffer":
-			r.check(p.resetDominatesUses(v, "(*bytes.Buffer).Reset", g.fn), key, g.call.Pos(), "buf.Reset() precedes every other use", "a pooled bytes.Buffer is used before Reset(): it still holds an earlier request's bytes")
+			if p.resetDominatesUses(v, "(*bytes.Buffer).Reset", g.fn) {
+				r.ok(key, g.call.Pos(), "buf.Reset() precedes every other use")
+			} else if bad := p.putWithoutReset(g.pool, "(*bytes.Buffer).Reset"); bad == "" {
+				// the other discipline: whoever puts a buffer back empties it first
+				r.ok(key, g.call.Pos(), "every Put into %s is preceded by Reset() of the buffer put (the pool only ever holds empty buffers)", g.pool)
+			} else {
+				r.bad(key, g.call.Pos(), "a pooled bytes.Buffer is used before Reset(): it still holds an earlier request's bytes (and not every Put into %s empties the buffer first: %s)", g.pool, bad)
+			}
 		default:
 			// gzip writer/reader wrappers: Reset(x) through the embedded field or promoted method
 			good := false
@@ -343,6 +350,77 @@ func rulePoolReset(r *Run) {
 			r.check(good, key, g.call.Pos(), "the pooled "+ts+" is Reset onto the new stream before it is handed out", "a pooled "+ts+" is handed out without Reset: it still reads/writes the previous request's stream")
 		}
 	}
+}
+
+// putWithoutReset: a Put into the named pool that is not preceded by a call of reset on the value put (in the
+// putting function, dominating the Put, or inside the put-accessor before the raw Put); "" if every Put is.
+func (p *Program) putWithoutReset(pool, reset string) string {
+	sites := 0
+	for _, s := range p.poolSites("Put") {
+		if s.pool != pool {
+			continue
+		}
+		sites++
+		ok := false
+		if _, isDefer := s.call.(*ssa.Defer); !isDefer && s.arg != nil {
+			eachInstr(s.fn, func(in ssa.Instruction) {
+				c, isCall := in.(ssa.CallInstruction)
+				if !isCall || calleeName(c) != reset || len(c.Common().Args) == 0 {
+					return
+				}
+				if a := c.Common().Args[0]; (a == s.arg || p.sameValue(a, s.arg) || p.sameOrigins(a, s.arg)) && p.nothingBetween(in, s.call, s.arg) {
+					ok = true
+				}
+			})
+		}
+		if !ok && s.raw != s.call && s.raw != nil {
+			// inside the accessor: Reset of the parameter put, before the raw Put
+			acc := s.raw.Parent()
+			rawArg := putValueRaw(s.raw)
+			eachInstr(acc, func(in ssa.Instruction) {
+				c, isCall := in.(ssa.CallInstruction)
+				if !isCall || calleeName(c) != reset || len(c.Common().Args) == 0 {
+					return
+				}
+				if a := c.Common().Args[0]; rawArg != nil && (a == rawArg || p.sameValue(a, rawArg)) && p.nothingBetween(in, s.raw, rawArg) {
+					ok = true
+				}
+			})
+		}
+		if !ok {
+			return "the Put at " + p.Pos(s.call.Pos()) + " is not"
+		}
+	}
+	if sites == 0 {
+		return "no Put found"
+	}
+	return ""
+}
+
+// nothingBetween: a and b are in one basic block, a first, and no instruction between them has v (or the same
+// value under another name) as an operand: the buffer emptied at a is still empty at b.
+func (p *Program) nothingBetween(a, b ssa.Instruction, v ssa.Value) bool {
+	if a.Block() != b.Block() {
+		return false
+	}
+	ia, ib := instrIndex(a), instrIndex(b)
+	if ia < 0 || ib < 0 || ia >= ib {
+		return false
+	}
+	for _, in := range a.Block().Instrs[ia+1 : ib] {
+		for _, op := range in.Operands(nil) {
+			if op == nil || *op == nil {
+				continue
+			}
+			if *op == v || p.sameValue(*op, v) {
+				if _, isMI := in.(*ssa.MakeInterface); isMI {
+					continue // boxing for the Put itself
+				}
+				return false
+			}
+		}
+	}
+	return true
 }
 
 // usesThroughCells: instructions that use v directly or after v was spilled into a local cell.
